@@ -61,8 +61,8 @@ def thin_lengths(prop, tier):
 
 
 def long_walks(prop, tier, seed):
-    """long histories with many live handles: 12-16 slots, 30-40 blocks, frame depth 3, depth 300-400"""
-    ns, nb, n, d = (12, 30, 20, 300) if tier == "quick" else (16, 40, 400, 400)
+    """long histories with many live handles: 12-16 slots, 30-40 blocks, frame depth 3, depth 200-400"""
+    ns, nb, n, d = (12, 30, 6, 200) if tier == "quick" else (16, 40, 400, 400)
     return [sized(prop, tier, "sized_long_walks_" + tier[0], ALL_SIZED, ns, nb, 3, hows=("new", "newB", "unique", "from", "box"), simulate=(n, d, seed + 1)),
             thin(prop, tier, "thin_long_walks_" + tier[0], THIN_OPS, ns, nb, 3, 3, simulate=(n, d, seed + 2)),
             slices(prop, tier, "slices_long_walks_" + tier[0], ns, nb, 3, simulate=(n, d, seed + 3)),
@@ -279,7 +279,9 @@ def c08(tier, seed):
                 mm("C08", tier, "mm_cow_q", [("c08_2x3", mops, 2, 3, 2, False), ("c08_3x2", mops, 3, 2, 1, False)]),
                 tr("C08", tier, "threads_q", seed), inj("C08", tier), lay("C08", tier, "layout_matrix_q")] + swaps("C08", tier, seed, hows=("init",))
     return [sized("C08", tier, "sized_cow_t", ops, 4, 3, 1, hows=("new", "newB")),
-            mm("C08", tier, "mm_cow_t", [("c08_2x4", mops, 2, 4, 2, False), ("c08_3x3", mops, 3, 3, 1, False)]),
+            mm("C08", tier, "mm_cow_t", [("c08_2x4", mops, 2, 4, 2, False), ("c08_3x2", mops, 3, 2, 2, False),
+                                         # three threads x three calls without the plain read (270 M states with it: an hour)
+                                         ("c08_3x3", ["clone", "drop", "make_mut"], 3, 3, 1, False)]),
             tr("C08", tier, "threads_t", seed), inj("C08", tier), lay("C08", tier, "layout_matrix_t")] + swaps("C08", tier, seed, hows=("init",))
 
 
@@ -291,7 +293,8 @@ def c09(tier, seed):
                 mm("C09", tier, "mm_unwrap_q", [("c09_2x3", mops, 2, 3, 2, False), ("c09_3x2", mops, 3, 2, 1, False)]),
                 tr("C09", tier, "threads_q", seed), inj("C09", tier)] + swaps("C09", tier, seed, hows=("init",))
     return [sized("C09", tier, "sized_unwrap_t", ops, 4, 2, 1),
-            mm("C09", tier, "mm_unwrap_t", [("c09_2x4", mops, 2, 4, 2, False), ("c09_3x3", mops, 3, 3, 1, False)]),
+            mm("C09", tier, "mm_unwrap_t", [("c09_2x4", mops, 2, 4, 2, False), ("c09_3x2", mops, 3, 2, 2, False),
+                                            ("c09_3x3", ["try_unwrap", "unwrap_or_clone", "drop"], 3, 3, 1, False)]),
             tr("C09", tier, "threads_t", seed), inj("C09", tier)] + swaps("C09", tier, seed, hows=("init",))
 
 
